@@ -1188,6 +1188,17 @@ class _Interp:
         return "".join(out)
 
     def render_loop(self, lp, items, out):
+        self.depth += 1
+        try:
+            if self.depth > self.MAX_CALL_DEPTH:
+                # the tree has two levels: recursing this deep means the body keeps
+                # re-binding the loop variable to a node with children, forever
+                raise _Raise("RecursionError")
+            self.render_loop1(lp, items, out)
+        finally:
+            self.depth -= 1
+
+    def render_loop1(self, lp, items, out):
         for item in items:
             it = self.scope(lp.scope, lp.body, (lp.var, "loop"))
             it.vars[lp.var] = item
